@@ -61,12 +61,8 @@ def parse(output):
 
 
 def playback_values(output):
-    """concrete values printed by --concrete-playback=print -> list of byte lists"""
-    vals = []
-    for m in re.finditer(r"vec!\[([\d,\s]*)\],", output):
-        body = m.group(1).strip()
-        vals.append([int(x) for x in body.split(",") if x.strip()] if body else [])
-    return vals
+    import kanirun
+    return kanirun.playback_values(output)
 
 
 def le(b):
